@@ -88,6 +88,7 @@ theorem writeChunks_reqs {ε} (t : Tier) (c : SetCmd) (token : Bytes) (ht : toke
     · intro r
       cases r with
       | io => exact AllReqs.ret _
+      | wfail => exact AllReqs.ret _
       | status s =>
         simp only
         split
